@@ -595,6 +595,35 @@ pub fn run(ctx: &Ctx) -> (Stats, Report) {
         });
         st.merge(s);
     }
+    // long payloads: a valid or empty head, a filler of every length 0..=N, then a 2-, 3- or
+    // 4-byte character, so that a multi-byte character straddles every byte offset up to N
+    {
+        let maxlen: usize = if ctx.thorough { 5000 } else { 600 };
+        let heads: Vec<String> = KINDS.iter().map(|k| render(&pools::pool(*k, seed, 0)[5], &tokenize(layout(*k)).unwrap()).unwrap().text).collect();
+        let href = &heads;
+        let s = par_sweep(maxlen as u64 + 1, 8, |range, st| {
+            for n in range {
+                for (ci, wide) in ["é", "日", "😀"].iter().enumerate() {
+                    for (ki, kind) in KINDS.iter().enumerate() {
+                        let head: &str = if (n as usize + ci + ki) % 2 == 0 { &href[ki] } else { "" };
+                        let fill = ["x", " ", "0"][(n as usize + ki) % 3].repeat((n as usize).saturating_sub(head.len()));
+                        let payload = format!("\"{head}{fill}{wide}tail{wide}\"");
+                        st.evaluations += 1;
+                        st.fps.push(hash_bytes(kind.index() as u64 + 400, payload.as_bytes()));
+                        match check_decode_json(*kind, &payload) {
+                            Ok(true) => st.class("json-payload-accepted-in-range"),
+                            Ok(false) => st.class("long-non-ascii-json-payload-rejected"),
+                            Err(m) => {
+                                st.fail(n, Case::new(P, "decode_json", vec![kind.index() as i128], vec![payload]), m);
+                                return;
+                            }
+                        }
+                    }
+                }
+            }
+        });
+        st.merge(s);
+    }
     st.section("json_payloads", &mut mark);
 
     // histories: sequences of successful and failing (de)serializations on one thread
@@ -651,7 +680,7 @@ pub fn run(ctx: &Ctx) -> (Stats, Report) {
     st.section("concurrent_histories", &mut mark);
 
     let rep = Report {
-        rule: "Round trips through serde_json and bincode: all dates, every second of the day x {0,1,999999} us, boundary+seeded pools of all six types; the JSON text must equal the reference rendering of the fixed layout in quotes and the binary form the little-endian raw count. Decoding: raw integers at every range limit +-0..3 and +-1e6, the i32/i64 extremes and seeded integers (uniform over the integer width, around the range, inside the range) as bincode payloads of every type (non-whole-second counts for the Oracle date included); JSON payloads made by 1..3 random edits of valid strings plus non-string JSON; integers handed to Deserialize in every width (i8..i128, u8..u128) by serde's de::value deserializers - range limits, small values and their images shifted by multiples of 2^8..2^65, extremes, seeded values: Err, or exactly the value whose raw count is that integer (never a truncated image). Concurrent histories: 16 threads, each walking its own three days (staying on a day 3 times out of 4) and round-tripping every value twice, so that any state the library shares between calls is hit from several threads (schedule-dependent: sound on any tree, sensitivity probabilistic). Oracle: round trip returns the same value; any other payload yields Err or a value satisfying the range predicate (whole seconds for the Oracle date). Non-trivial = every round-tripped value; out-of-range binary payloads; every perturbed JSON payload (distinct by content).".into(),
+        rule: "Round trips through serde_json and bincode: all dates, every second of the day x {0,1,999999} us, boundary+seeded pools of all six types; the JSON text must equal the reference rendering of the fixed layout in quotes and the binary form the little-endian raw count. Decoding: raw integers at every range limit +-0..3 and +-1e6, the i32/i64 extremes and seeded integers (uniform over the integer width, around the range, inside the range) as bincode payloads of every type (non-whole-second counts for the Oracle date included); JSON payloads made by 1..3 random edits of valid strings plus non-string JSON, and long strings (valid or empty head + filler of every length 0..=600, 5000 in thorough, + a 2-, 3- or 4-byte character, so that a multi-byte character straddles every byte offset); integers handed to Deserialize in every width (i8..i128, u8..u128) by serde's de::value deserializers - range limits, small values and their images shifted by multiples of 2^8..2^65, extremes, seeded values: Err, or exactly the value whose raw count is that integer (never a truncated image). Concurrent histories: 16 threads, each walking its own three days (staying on a day 3 times out of 4) and round-tripping every value twice, so that any state the library shares between calls is hit from several threads (schedule-dependent: sound on any tree, sensitivity probabilistic). Oracle: round trip returns the same value; any other payload yields Err or a value satisfying the range predicate (whole seconds for the Oracle date). Non-trivial = every round-tripped value; out-of-range binary payloads; every perturbed JSON payload (distinct by content).".into(),
         assumptions: vec!["bincode 1.3 default configuration (little-endian fixed-width integers) and serde_json as the two data formats".into()],
         exhaustive: false,
         extra: Default::default(),
